@@ -341,6 +341,17 @@ func (w *World) Apply(ev string) (enabled bool, err error) {
 		}
 		_, err := w.N.Extend(txs)
 		return true, err
+	case "xn":
+		// xn.<n>: the node mines n empty blocks while nobody listens (the wallet process is
+		// not running): the notifications are lost, the blocks are only in the chain database
+		n, _ := strconv.Atoi(p[1])
+		for i := 0; i < n; i++ {
+			if _, err := w.N.Extend([]*wire.MsgTx{w.strangerCoinbase(w.N.Height() + 1)}); err != nil {
+				return true, err
+			}
+			w.N.Pop()
+		}
+		return true, nil
 	case "r":
 		k, _ := strconv.Atoi(p[1])
 		gens, ok := w.reorgGens(k, p[2])
